@@ -215,6 +215,7 @@ func runC02(c *Ctx) []Obligation {
 		c.callsOnlyIn(P, "prefix.never-appended-in-place", "store/prefix", `^builtin\.append\((s|iter)\.prefix, `, []string{}, 0, "appending to the shared prefix slice would let two bounds (or two keys) overwrite each other through spare capacity"),
 		c.fieldTable(P, "store.prefix-set-once", "store/prefix", "Store", "prefix", false, []string{`store/prefix\.NewStore`}, "a prefix store never changes its prefix"),
 		c.fieldTable(P, "iter.valid-writers", "store/prefix", "prefixIterator", "valid", false, []string{`store/prefix\.newPrefixIterator`, `\(\*store/prefix\.prefixIterator\)\.Next`}, "validity is decided at construction and in Next only"),
+		c.twins(P, "iterator.twins", "(store/prefix.Store).Iterator", "(store/prefix.Store).ReverseIterator", []Rename{{From: "KVStore.Iterator(", To: "KVStore.ReverseIterator("}}, "reverse iteration differs from forward iteration only in the parent call"),
 	)
 	return out
 }
